@@ -17,6 +17,7 @@
 /*implements reg_parser.h*/
 #include "reg_parser.h"
 #include "common.h"
+#include "verif_hooks.h"
 #include <stdio.h>
 #include <stdlib.h>
 #include <string.h>
@@ -133,6 +134,9 @@ void get_reg_str(char *opd_str, char *reg) {
       break;
     if (j > 0 &&
         (IN_RANGE(opd_str[i], 'a', 'z') || IN_RANGE(opd_str[i], '0', '9')))
+      AL_VERIF_IDX(2, j, MAX_REG_LEN);
+    if (j > 0 &&
+        (IN_RANGE(opd_str[i], 'a', 'z') || IN_RANGE(opd_str[i], '0', '9')))
       reg[j++] = opd_str[i];
     else if (j > 0)
       break;
@@ -174,6 +178,7 @@ static int copy_index_reg(int j, const char *mem, char reg[]) {
   while (((IN_RANGE(mem[j], 'a', 'x')) || (IN_RANGE(mem[j], '0', '9'))) &&
          k < MAX_REG_STR_LEN)
     reg[k++] = mem[j++];
+  AL_VERIF_IDX(3, k, MAX_REG_LEN);
   return j;
 }
 
